@@ -6,7 +6,8 @@ from vlib import wenv, ref_response
 
 PROPERTY = "C18"
 RULE = ("(W) max_requests 0..6 x max_requests_jitter 0..3 x drawn jitter value x worker class x connection plan (1-4 pipelined "
-        "keep-alive requests per connection, up to 40 connections): the worker object's `alive` flag must turn false exactly at "
+        "keep-alive requests per connection, up to 40 connections, up to 4 of them carrying a request that fails - application raising "
+        "before / after starting the response, client gone at the first write): the worker object's `alive` flag must turn false exactly at "
         "request number max_requests + jitter-draw, that response must be complete and announce Connection: close, no later request "
         "of that connection is served, and with max_requests=0 the flag never turns false whatever the jitter. (R) real masters with "
         "1-2 workers of every class, max_requests 2..5, sequential and concurrent non-keep-alive clients: every client gets a complete "
@@ -38,6 +39,10 @@ def strategy(tier):
         "draw": st.integers(0, 3),
         "keepalive": st.sampled_from([0, 2, 2]),
         "plan": st.lists(st.integers(1, 4), min_size=1, max_size=40),
+        # connections (by index) whose single request fails: the application raises before / after it started the response, or the
+        # client is gone when the response is written - such requests have been handled too and count like any other
+        "fails": st.lists(st.tuples(st.integers(0, 12), st.sampled_from(["before_start", "mid", "send_fault", "before_start:OSError"])).map(list),
+                          max_size=4),
     })
     t = st.fixed_dictionaries({
         "engine": st.just("T"),
@@ -149,17 +154,34 @@ def run_case(case):
 
     served = 0
     turned_at = None
+    fails = dict((f[0], f[1]) for f in case.get("fails", []))
+    failed_any = False
     for ci, nreq in enumerate(case["plan"]):
         if not env.worker.alive:
             break
+        how = fails.get(ci)
+        if how:
+            nreq = 1
         raw = b"".join(b"GET /%d/%d HTTP/1.1\r\nHost: h\r\n\r\n" % (ci, j) for j in range(nreq))
-        sock = wenv.FakeSocket([raw])
+        sock = wenv.FakeSocket([raw], send_fault=(0, 32) if how == "send_fault" else None)
+        if how and how != "send_fault":
+            app.progs = [dict(prog, mode="gen", chunks=["o", "k"], fail=how.split(":")[0], fail_k=1, headers=[],
+                              **({"fail_exc": "FileNotFoundError"} if how.endswith(":OSError") else {}))]
+        else:
+            app.progs = [prog]
         before = len(app.calls)
         escaped = env.serve(sock)
         if escaped is not None:
             V("no-escape", "exception-escaped-handle:" + type(escaped).__name__, repr(escaped))
             break
         n_here = len(app.calls) - before
+        if how:
+            # no verdict about the response of a failed request; it was handled and counts
+            failed_any = True
+            served += n_here
+            if not env.worker.alive and turned_at is None:
+                turned_at = served
+            continue
         # all responses of this connection are complete
         wire = sock.received()
         pos = 0
@@ -203,5 +225,6 @@ def run_case(case):
         if mr > 0 and calls_to_randint and calls_to_randint[0] != (0, jit):
             V("jitter-range", "jitter-drawn-from-wrong-range", {"randint_args": calls_to_randint[:2]}, [0, jit])
     nontrivial = turned_at is not None or (limit is None and jit > 0 and served > 3)
-    classes = ["kind:" + kind, "mr:%d" % mr, "recycled:%s" % (turned_at is not None), "keepalive:%d" % case["keepalive"]]
+    classes = ["kind:" + kind, "mr:%d" % mr, "recycled:%s" % (turned_at is not None), "keepalive:%d" % case["keepalive"],
+               "failed-requests:%s" % failed_any]
     return Outcome(vio, nontrivial, classes, sample={"case": case, "served": served, "turned_at": turned_at, "limit": limit})
